@@ -1539,7 +1539,7 @@ class Server:
 
     @ConnectionConditions(ConnectionConditions.login_required)
     async def abor(self, connection, rest):
-        if connection.extra_workers:
+        if any(not worker.done() for worker in connection.extra_workers):
             for worker in connection.extra_workers:
                 worker.cancel()
         else:
